@@ -123,6 +123,11 @@ class Parser:
             rhs = self.expr()
             self.eat(";")
             return ("addassign", e, rhs)
+        if self.peek() == "=":
+            self.eat()
+            rhs = self.expr()
+            self.eat(";")
+            return ("assign", e, rhs)
         if self.peek() == ";":
             self.eat()
             return ("do", e)
@@ -158,6 +163,8 @@ class Parser:
         name = self.eat()
         if self.peek() == "(":
             self.eat()
+            while self.peek() in ("ref", "mut"):
+                self.eat()
             v = self.eat()
             self.eat(")")
             return (name, v)
@@ -168,6 +175,8 @@ class Parser:
             self.eat()
             ctor = self.eat()
             self.eat("(")
+            while self.peek() in ("ref", "mut"):
+                self.eat()
             v = self.eat()
             self.eat(")")
             self.eat("=")
@@ -752,6 +761,255 @@ def translate_protocol(src):
     return text, missing
 
 
+# ---------------------------------------------------------------- link receivers (src/interface/{can,usart,serial}.rs)
+
+RX_ERR = {"InterfaceError::BuilderError": ("berr", ".builderErr"), "InterfaceError::FrameError": ("ferr", ".frameErr")}
+CMP_LEAN = {"==": "%s == %s", "!=": "%s != %s", ">": "decide (%s > %s)", "<": "decide (%s < %s)", ">=": "decide (%s ≥ %s)", "<=": "decide (%s ≤ %s)"}
+CMP_FLIP = {"==": "==", "!=": "!=", ">": "<", "<": ">", ">=": "<=", "<=": ">="}
+
+
+class RxTranslator:
+    """translates the frame-level tail of one `try_get_packet` — from `let x = match Frame::from_…_frame(raw) { … };` to the
+    end of the enclosing block, after which the receive loop goes round again — into a function
+    `(st : RxSt) (r : Res FErr Frame) : RxSt × Option Emit`: `st` is `self.packet_builder` (rebound by `let st : RxSt := …`
+    at every assignment and after every successful `add_frame` through a `ref mut` binding), `r` is what the frame decoder
+    answered, the result is the state after the tail and what the call returns (`none` = the loop continues).
+    Calls into src/packet.rs are the model's `Builder.new / addFrame / framesLeft / build` (tied by Reassembly.lean and the
+    correspondence check); a panic inside one of them ends the call with `.panic` and the state as it was."""
+
+    def __init__(self, decoder):
+        self.decoder, self.decoded, self.n = decoder, False, 0
+
+    def value(self, e, env):
+        if e[0] == "path":
+            p = e[1]
+            if p == ["None"]:
+                return ("none", "optbuilder")
+            if len(p) == 1 and p[0] in env:
+                return env[p[0]]
+        if e[0] == "call" and e[1] == ("path", ["Some"]) and len(e[2]) == 1:
+            v, ty = self.value(e[2][0], env)
+            if ty == "builder":
+                return ("(some %s)" % v, "optbuilder")
+        raise Untranslatable("value expression")
+
+    def call(self, e, env):
+        """a call whose outcome is matched on: (lean term, type of Ok, type of Err or None, name rebound on Ok or None)"""
+        if e[0] != "call" or e[1][0] != "path":
+            raise Untranslatable("not a call")
+        p, args = e[1][1], e[2]
+        if p == ["Frame::" + self.decoder] and len(args) == 1 and args[0][0] == "path" and len(args[0][1]) == 1 and not self.decoded:
+            self.decoded = True
+            return ("r", "frame", "ferr", None)
+        if p == ["PacketBuilder::new"] and len(args) == 1:
+            v, ty = self.value(args[0], env)
+            if ty == "frame":
+                return ("Builder.new %s" % v, "builder", "berr", None)
+        if len(p) == 2 and p[0] in env and env[p[0]][1] in ("builderref", "builder"):
+            b, bty = env[p[0]]
+            if p[1] == "add_frame" and len(args) == 1 and bty == "builderref":
+                v, ty = self.value(args[0], env)
+                if ty == "frame":
+                    return ("%s.addFrame %s" % (b, v), "builderref", "berr", p[0])
+            if p[1] == "build" and not args:
+                return ("%s.build" % b, "packet", "berr", None)
+            if p[1] == "frames_left" and not args:
+                return ("%s.framesLeft" % b, "u16", None, None)
+        raise Untranslatable("call " + ".".join(p))
+
+    def ret(self, e, env, ind):
+        if e[0] == "call" and e[1] == ("path", ["Ok"]) and len(e[2]) == 1:
+            v, ty = self.value(e[2][0], env)
+            if ty == "packet":
+                return "%s(st, some (.packet %s))" % (ind, v)
+        if e[0] == "call" and e[1] == ("path", ["Err"]) and len(e[2]) == 1:
+            a = e[2][0]
+            if a[0] == "call" and a[1][0] == "path" and a[1][1][0] in RX_ERR and len(a[1][1]) == 1 and len(a[2]) == 1:
+                want, ctor = RX_ERR[a[1][1][0]]
+                v, ty = self.value(a[2][0], env)
+                if ty == want:
+                    return "%s(st, some (%s %s))" % (ind, ctor, v)
+        raise Untranslatable("return value")
+
+    def match_res(self, c, okvar, errvar, env, ind, ok_body, err_body):
+        t, okty, errty, rebind = c
+        env_ok, env_err = dict(env), dict(env)
+        if rebind:
+            okname, upd = env[rebind][0], "%s  let st : RxSt := some %s\n" % (ind, env[rebind][0])
+        else:
+            okname, upd = (okvar if okvar and okvar != "_" else "_"), ""
+            if okname != "_":
+                env_ok[okvar] = (okvar, okty)
+        ename = errvar if errvar and errvar != "_" else "_"
+        if errty is None:
+            self.n += 1
+            ename = "e%d" % self.n
+            eb = "%s  (st, some (.builderErr %s))" % (ind, ename)       # `frames_left` has no error answer; the model's type has
+        else:
+            if ename != "_":
+                env_err[errvar] = (errvar, errty)
+            eb = err_body(env_err, ind + "  ")
+        return ("%smatch %s with\n%s| .panic => (st, some .panic)\n%s| .err %s =>\n%s\n%s| .ok %s =>\n%s%s"
+                % (ind, t, ind, ind, ename, eb, ind, okname, upd, ok_body(env_ok, ind + "  ")))
+
+    def never(self, env, ind):
+        raise Untranslatable("an arm that must return falls through")
+
+    def arms(self, m):
+        pats = {a[0][0]: a for a in m[2]}
+        if sorted(pats) != ["Err", "Ok"]:
+            raise Untranslatable("match arms")
+        return pats["Ok"], pats["Err"]
+
+    def bind_match(self, m, env, ind, use):
+        """`match CALL { Ok(x) => VALUE, Err(e) => return … }` used as a value: `use(lean value, type, env, ind)` continues"""
+        c = self.call(m[1], env)
+        if c[3]:
+            raise Untranslatable("value of add_frame")
+        ((_, okv), okb), ((_, errv), errb) = self.arms(m)
+        if not (len(okb) == 1 and okb[0][0] == "tail"):
+            raise Untranslatable("Ok arm of a value match")
+
+        def ok_body(env2, ind2):
+            v, ty = self.value(okb[0][1], env2)
+            return use(v, ty, env2, ind2)
+        return self.match_res(c, okv, errv, env, ind, ok_body, lambda env2, ind2: self.stmts(errb, env2, ind2, self.never))
+
+    def drop_refs(self, env):
+        return {k: v for k, v in env.items() if v[1] != "builderref"}
+
+    def stmts(self, ss, env, ind, k):
+        if not ss:
+            return k(env, ind)
+        s, rest = ss[0], ss[1:]
+        kind = s[0]
+        after = lambda _env, ind2: self.stmts(rest, env, ind2, k)       # bindings made inside a block end with it
+        if kind == "return":
+            return self.ret(s[1], env, ind)
+        if kind == "assign":
+            if s[1] != ("path", ["self", "packet_builder"]):
+                raise Untranslatable("assignment to something else than self.packet_builder")
+            env0 = self.drop_refs(env)
+
+            def use(v, ty, _env2, ind2):
+                if ty != "optbuilder":
+                    raise Untranslatable("self.packet_builder = " + ty)
+                return "%slet st : RxSt := %s\n%s" % (ind2, v, self.stmts(rest, env0, ind2, k))
+            if s[2][0] == "match":
+                return self.bind_match(s[2], env, ind, use)
+            v, ty = self.value(s[2], env)
+            return use(v, ty, env, ind)
+        if kind == "let":
+            name = s[1]
+            if s[2][0] == "match":
+                def use(v, ty, env2, ind2):
+                    env3 = dict(env)
+                    env3[name] = (v, ty)
+                    return self.stmts(rest, env3, ind2, k)
+                return self.bind_match(s[2], env, ind, use)
+            v, ty = self.value(s[2], env)
+            env3 = dict(env)
+            env3[name] = (v, ty)
+            return self.stmts(rest, env3, ind, k)
+        if kind in ("do", "tail") and s[1][0] == "match":
+            c = self.call(s[1][1], env)
+            ((_, okv), okb), ((_, errv), errb) = self.arms(s[1])
+            return self.match_res(c, okv, errv, env, ind, lambda env2, ind2: self.stmts(okb, env2, ind2, after), lambda env2, ind2: self.stmts(errb, env2, ind2, after))
+        if kind == "if":
+            c, then, els = s[1], s[2], s[3] or []
+            if c[0] == "iflet":
+                _, ctor, v, scrut = c
+                if ctor == "Some" and scrut in (("path", ["self", "packet_builder"]), ("call", ("path", ["self", "packet_builder", "as_mut"]), [])):
+                    env2 = dict(env)
+                    env2[v] = (v, "builderref")
+                    return ("%smatch st with\n%s| some %s =>\n%s\n%s| none =>\n%s"
+                            % (ind, ind, v, self.stmts(then, env2, ind + "  ", after), ind, self.stmts(els, env, ind + "  ", after)))
+                if ctor in ("Err", "Ok"):
+                    cl = self.call(scrut, env)
+                    if ctor == "Err":
+                        return self.match_res(cl, None, v, env, ind, lambda env2, ind2: self.stmts(els, env2, ind2, after), lambda env2, ind2: self.stmts(then, env2, ind2, after))
+                    return self.match_res(cl, v, None, env, ind, lambda env2, ind2: self.stmts(then, env2, ind2, after), lambda env2, ind2: self.stmts(els, env2, ind2, after))
+                raise Untranslatable("if let " + ctor)
+            e = c[1]
+            if e[0] == "cmp":
+                op, a, b = e[1], e[2], e[3]
+                if a[0] == "num" and b[0] == "call":
+                    op, a, b = CMP_FLIP[op], b, a
+                if a[0] == "call" and b[0] == "num":
+                    cl = self.call(a, env)
+                    if cl[1] != "u16":
+                        raise Untranslatable("comparison of a non-number")
+                    self.n += 1
+                    nv = "n%d" % self.n
+
+                    def ok_body(env2, ind2):
+                        return ("%sif %s then\n%s\n%selse\n%s" % (ind2, CMP_LEAN[op] % (nv, b[1]), self.stmts(then, env, ind2 + "  ", after), ind2, self.stmts(els, env, ind2 + "  ", after)))
+                    return self.match_res(cl, nv, None, env, ind, ok_body, None)
+            raise Untranslatable("condition")
+        raise Untranslatable("statement " + kind)
+
+
+def rx_segment(src, decoder):
+    m = re.search(r"fn\s+try_get_packet\s*\([^)]*\)[^{]*\{", src)
+    if not m:
+        raise Untranslatable("no try_get_packet")
+    i, depth = m.end() - 1, 0
+    for j in range(i, len(src)):
+        depth += src[j] == "{"
+        depth -= src[j] == "}"
+        if depth == 0:
+            break
+    body = re.sub(r"//[^\n]*", "", src[i + 1:j])
+    m2 = re.search(r"let\s+\w+\s*=\s*match\s+Frame::%s\s*\(" % decoder, body)
+    if not m2:
+        raise Untranslatable("no `let x = match Frame::%s(..)`" % decoder)
+    depth, end = 0, None
+    for j in range(m2.start(), len(body)):
+        depth += body[j] == "{"
+        depth -= body[j] == "}"
+        if depth < 0:
+            end = j
+            break
+    if end is None:
+        raise Untranslatable("enclosing block")
+    pre, post = body[:m2.start()], body[end:]
+    if "packet_builder" in pre or "packet_builder" in post or "return Ok" in post:
+        raise Untranslatable("the receiver state is used outside the frame-level tail")
+    if "loop" not in pre:
+        raise Untranslatable("the tail is not inside a loop")
+    return body[m2.start():end]
+
+
+RECEIVERS = [("canAccept", "src/interface/can.rs", "Can", "from_bxcan_frame"), ("usartAccept", "src/interface/usart.rs", "Usart", "from_usart_frame"),
+             ("serialAccept", "src/interface/serial.rs", "Serial", "from_usart_frame")]
+
+
+def translate_receivers(read):
+    """`read(rel)` returns the source text of a file; returns (lean text of Generated/Receivers.lean, [names not translated])"""
+    out, missing = [], []
+    for lean_name, rel, ty, decoder in RECEIVERS:
+        sig = "(st : RxSt) (r : Res FErr Frame) : RxSt × Option Emit"
+        try:
+            seg = rx_segment(read(rel), decoder)
+            tr = RxTranslator(decoder)
+            body = tr.stmts(Parser(tokenize("{" + seg + "}")).block(), {}, "  ", lambda env, ind: "%s(st, none)" % ind)
+            if not tr.decoded:
+                raise Untranslatable("decoder call")
+            out.append("/-- the frame-level tail of `%s::try_get_packet` in %s: `st` is `self.packet_builder`, `r` what `Frame::%s` answered; the result is the\nstate afterwards and what the call returns (`none`: the receive loop goes round again) -/\ndef %s %s :=\n%s\n"
+                       % (ty, rel, decoder, lean_name, sig, body))
+        except (Untranslatable, KeyError, TypeError, IndexError) as ex:
+            missing.append(ty + "::try_get_packet")
+            out.append("/-- the tail of `%s::try_get_packet` could not be translated on this run (%s): this is the hand-written model's definition -/\ndef %s %s :=\n  rxFrame st r\n"
+                       % (ty, str(ex).replace("-/", ""), lean_name, sig))
+    text = ("import RossModel.Link\n"
+            "/-! GENERATED by bin/extract (bin/rust2lean.py) from src/interface/{can,usart,serial}.rs of the repository under verification — do not edit.\n"
+            "Every run of a check regenerates this file from /repo's working tree before building the theorems. -/\n"
+            "namespace Ross.Src\nopen Ross\n\n" + "\n".join(out) +
+            "\n/-- receivers whose tail the translator could not translate on this run (they fall back to the model's `rxFrame`) -/\n"
+            "def receiversNotTranslated : List String := [" + ", ".join('"%s"' % m for m in missing) + "]\n\nend Ross.Src\n")
+    return text, missing
+
+
 if __name__ == "__main__":
     import sys
     src = open(sys.argv[1] if len(sys.argv) > 1 else "/repo/src/packet.rs").read()
@@ -761,5 +1019,8 @@ if __name__ == "__main__":
     print("-- not translated:", m, file=sys.stderr)
     psrc = open("/repo/src/protocol.rs").read()
     t, m = translate_protocol(psrc)
+    print(t)
+    print("-- not translated:", m, file=sys.stderr)
+    t, m = translate_receivers(lambda rel: open("/repo/" + rel).read())
     print(t)
     print("-- not translated:", m, file=sys.stderr)
